@@ -252,6 +252,7 @@ def run(F, res, tier):
     FIRST_OF = {"syntax::parser::expr": "EXPR_FIRST", "syntax::parser::expr_bp": "EXPR_FIRST", "syntax::parser::pattern": "PATTERN_FIRST",
                 "syntax::parser::type_expr": "TYPE_FIRST"}
     nsites = 0
+    single = []
     for p_, g_ in sorted(F.fns.items()):
         if not p_.startswith("syntax::parser::") or p_.startswith(PM.P) or not g_.blocks:
             continue
@@ -264,6 +265,8 @@ def run(F, res, tier):
                 dg = FL.Defs(g_)
             need = members(bits(FIRST_OF[c]))
             for gt in FL.gates(F, g_, [b], dg):
+                if gt.get("callee") == PM.P + "at" and gt["allowed"] == [True]:
+                    single.append((p_, g_, b, t, c, gt))
                 if gt.get("callee") != PM.P + "at_any" or gt["allowed"] != [True]:
                     continue
                 # the guard must speak about the token the callee starts with: nothing is consumed in between
@@ -291,6 +294,24 @@ def run(F, res, tier):
                        % (c.rsplit("::", 1)[-1], FIRST_OF[c], c.rsplit("::", 1)[-1]), not missing, where=g_.loc(t["ln"]),
                        how="guard %s" % kdef.rsplit("::", 1)[-1] if not missing else "guard %s lacks %s" % (kdef.rsplit("::", 1)[-1], missing))
     res.floor("guarded call sites of expr/pattern/type_expr", nsites, 12)
+    # the same for a guard that names one kind: `if p.at(K) { pattern(p) }` admits K only
+    for p_, g_, b, t, c, gt in single:
+        between = [bb for bb, tt in g_.calls() if bb != b and bb != gt["bb"] and g_.dominates(gt["bb"], bb) and g_.dominates(bb, b)
+                   and ((callee(tt) or "").startswith("syntax::parser::") and
+                        (callee(tt) or "") not in (PM.P + "start_node", PM.P + "at", PM.P + "at_any", PM.P + "nth", PM.P + "eof", PM.P + "error"))]
+        if between:
+            continue
+        need = members(bits(FIRST_OF[c]))
+        a = gt["call_t"]["args"][1]
+        kd = (a.get("k") or {}) if isinstance(a.get("k"), dict) else {}
+        kname = kd.get("variant") or FL.const_variant(kd) if kd else None
+        have = {kname} if kname else set()
+        ordn = [bb for bb, tt in g_.calls() if callee(tt) == c].index(b)
+        missing = sorted(need - have)
+        res.ob("G3", "guard/%s/%s/%d" % (p_.rsplit("::", 1)[-1], c.rsplit("::", 1)[-1], ordn),
+               "the single kind guarding this call of %s() is all of %s (else a construct %s() implements is rejected here)"
+               % (c.rsplit("::", 1)[-1], FIRST_OF[c], c.rsplit("::", 1)[-1]), not missing, where=g_.loc(t["ln"]),
+               how="guard at(%s) lacks %s" % (kname, missing[:8]))
     accessor_rules(F, res, pure, kinds)
     slot_coverage(F, res, pure, kinds)
     literal_lexemes(F, res, R)
@@ -539,6 +560,8 @@ def literal_lexemes(F, res, R):
 
 # what Gleam's lexer skips between tokens: blanks, tabs, line feeds and the carriage return of a CRLF line end
 BLANK_LEXEMES = [" ", "\t", "\n", "\r\n", "  \r\n\t "]
+# comments, which Gleam skips like blanks: with and without a text, the empty line of a comment block, doc and module comments
+COMMENT_LEXEMES = ["//", "//\n", "// note", "//x", "//\r\n", "///", "/// doc", "////", "//// module doc", "// a // b", "//\n//\n// text\n"]
 
 
 def blanks_are_trivia(F, res, R, rule="G8"):
@@ -565,7 +588,7 @@ def blanks_are_trivia(F, res, R, rule="G8"):
                     trivia.add(k)
             except Exception:  # noqa
                 pass
-    for lx in BLANK_LEXEMES:
+    for lx in BLANK_LEXEMES + COMMENT_LEXEMES:
         pos, kinds, ok = 0, [], True
         while pos < len(lx):
             best = (None, 0)
@@ -583,7 +606,8 @@ def blanks_are_trivia(F, res, R, rule="G8"):
                 break
             kinds.append(best[0])
             pos += best[1]
-        res.ob(rule, "blank/%s" % lx.encode("unicode_escape").decode(), "the blank %r is lexed as trivia" % lx, ok and bool(trivia),
+        res.ob(rule, "%s/%s" % ("blank" if lx in BLANK_LEXEMES else "comment", lx.encode("unicode_escape").decode()),
+               "the %s %r is lexed as trivia" % ("blank" if lx in BLANK_LEXEMES else "comment", lx), ok and bool(trivia),
                where="crates/syntax/src/kind.rs", how="tokens: %s" % kinds)
 
 
